@@ -1322,8 +1322,11 @@ impl DhtNetworkManager {
         best_nodes.push(self.local_dht_node());
         self.mark_self_queried(&mut queried_nodes);
 
-        // Start with local knowledge
-        let initial = self.find_closest_nodes_local(key, count).await;
+        // Start with local knowledge. Every locally known peer is a candidate: candidates that
+        // cannot improve the result are pruned once K closer nodes have answered.
+        let initial = self
+            .find_closest_nodes_local(key, MAX_CANDIDATE_NODES)
+            .await;
         let mut candidates: VecDeque<DHTNode> = VecDeque::new();
         for node in initial {
             queued_peer_ids.insert(node.peer_id.clone());
@@ -1408,12 +1411,16 @@ impl DhtNetworkManager {
                             // by distance at the end of each iteration, so .last()
                             // is the farthest.
                             let dominated = best_nodes.len() >= count
-                                && best_nodes.last().is_some_and(|worst| {
-                                    matches!(
-                                        Self::compare_node_distance(&node, worst, key),
-                                        std::cmp::Ordering::Equal | std::cmp::Ordering::Greater
-                                    )
-                                });
+                                && best_nodes
+                                    .iter()
+                                    .max_by(|a, b| Self::compare_node_distance(a, b, key))
+                                    .is_some_and(|worst| {
+                                        matches!(
+                                            Self::compare_node_distance(&node, worst, key),
+                                            std::cmp::Ordering::Equal
+                                                | std::cmp::Ordering::Greater
+                                        )
+                                    });
                             if !dominated {
                                 if candidates.len() >= MAX_CANDIDATE_NODES {
                                     trace!(
@@ -1448,7 +1455,25 @@ impl DhtNetworkManager {
             best_nodes.sort_by(|a, b| Self::compare_node_distance(a, b, key));
             best_nodes.truncate(count);
 
-            if !found_new_closer {
+            // Converged only when no unqueried candidate could still improve the K-closest
+            // set: with K answers in hand, candidates no closer than the farthest of them are
+            // dropped; whatever remains is queried closest-first.
+            if best_nodes.len() >= count
+                && let Some(worst) = best_nodes.last()
+            {
+                candidates.retain(|candidate| {
+                    let keep = Self::compare_node_distance(candidate, worst, key)
+                        == std::cmp::Ordering::Less;
+                    if !keep {
+                        queued_peer_ids.remove(&candidate.peer_id);
+                    }
+                    keep
+                });
+            }
+            candidates
+                .make_contiguous()
+                .sort_by(|a, b| Self::compare_node_distance(a, b, key));
+            if !found_new_closer && candidates.is_empty() {
                 info!("[NETWORK] Converged after {} iterations", iteration + 1);
                 break;
             }
